@@ -26,10 +26,6 @@ structure RcvG where
   cancelled : Bool := false
   reset : Bool := false
   reliable : Int := 0           -- reliable size of the RESET_STREAM_AT frames accepted (only ever reduced)
-  /-- bytes this stream is suspected to leak through the listed finding `cancel_then_reset_at`:
-      CancelRead first (final size unknown), then a RESET_STREAM_AT whose reliable size lies beyond
-      the read position — the stream completes without `Abandon` -/
-  leak : Int := 0
 
 structure G where
   started : Bool := false
@@ -134,14 +130,7 @@ def step (g : G) (op impl : String) : G × StepOut :=
       (match dumpField impl 3 with
        | some br =>
          let tot := sumI (g'.rcv.map (·.credited))
-         let leak := sumI (g'.rcv.map (·.leak))
-         if !g'.dead && br ≠ tot then
-           -- narrow classifier of the listed finding: the whole difference is explained by streams that were
-           -- cancelled locally and then reset with a reliable size beyond the read position
-           let cls := if leak > 0 && br + leak = tot then "cancel_then_reset_at" else "-"
-           [("credit_conserved", cls, s!"connection bytesRead={br} but bytes consumed or abandoned on the streams={tot}" ++
-              (if cls ≠ "-" then s!" ({leak} bytes on streams completed by RESET_STREAM_AT after CancelRead)" else ""))]
-         else []
+         if !g'.dead && br ≠ tot then [fail "credit_conserved" s!"connection bytesRead={br} but bytes consumed or abandoned on the streams={tot}"] else []
        | none => [])
     (g', { model := impl, tags := tags, fails := fails ++ extra })
   if res == ["skip"] then (g, { model := impl }) else
@@ -233,11 +222,8 @@ def step (g : G) (op impl : String) : G × StepOut :=
         -- the reliable size can only be reduced (first RESET_STREAM_AT sets it)
         let newRel := if (!r.reset && r.reliable == 0) || rel < r.reliable then rel else r.reliable
         let r' : RcvG := if r.cancelled then
-            -- a read side that was cancelled locally ignores the reset error. Listed finding: if this frame makes
-            -- the final size known and its reliable size is beyond the read position, nothing abandons the rest
-            -- (until a later RESET_STREAM_AT lowers the reliable size to the read position)
-            { r with highest := max r.highest e, final := some e, reliable := newRel,
-                     leak := if r.appRead ≥ newRel then 0 else if r.final.isNone then e - r.appRead else r.leak } else
+            -- a read side that was cancelled locally ignores the reset error; the stream completes and abandons the rest
+            { r with highest := max r.highest e, final := some e, reliable := newRel } else
           { r with highest := max r.highest e, final := some e, reset := true, reliable := newRel }
         echo { g with rcv := g.rcv.set j r' }
           [if rel = 0 then "rst:ok" else if rel > r.appRead then "rst:reliable-ahead" else "rst:reliable-behind"] fails
